@@ -83,7 +83,8 @@ def val(t):
 def state_of(v):
     nodes = [(n.name, F(n.demand), F(n.time_window[0]), "inf" if n.time_window[1] == float("inf") else F(n.time_window[1]))
              for n in v.nodes]
-    arcs = [(k[0], k[1], a.origin.name, a.destination.name, F(a.travel_time), F(a.cost)) for k, a in v.arcs.items()]
+    # (the arc table is a mapping: the order in which it lists its arcs is not part of the property)
+    arcs = sorted((k[0], k[1], a.origin.name, a.destination.name, F(a.travel_time), F(a.cost)) for k, a in v.arcs.items())
     return nodes, arcs, list(v.node_names)
 
 
@@ -140,9 +141,17 @@ def run_case(case, drv):
             out = core.err_kind(e)
         after = state_of(v)
         impl_line = f"{out} {state_str(after[0], after[1])} none none"
-        def _canon(line):      # the property says "raise an error", not which one
-            head, _, rest = line.partition(" ")
-            return core.err_class(head) + " " + rest
+        def _canon(line):      # the property says "raise an error", not which one; arcs are compared as a set
+            tk = line.split()
+            try:
+                nn = int(tk[1])
+                pos = 2 + 4 * nn
+                na = int(tk[pos])
+                arcs_ = sorted((int(tk[pos + 1 + 6 * q]), int(tk[pos + 2 + 6 * q])) + tuple(tk[pos + 3 + 6 * q: pos + 7 + 6 * q]) for q in range(na))
+                tk = tk[:pos + 1] + [str(t) for a_ in arcs_ for t in a_] + tk[pos + 1 + 6 * na:]
+            except (ValueError, IndexError):
+                pass
+            return core.err_class(tk[0]) + " " + " ".join(tk[1:])
         if idx < len(mparts) and _canon(impl_line) != _canon(mparts[idx]):
             res.disagree(f"call #{idx} {op}", impl_line, mparts[idx])
         # ---------- oracle: the property stated on the real object
